@@ -34,7 +34,7 @@ func init() {
 		pkgPath:   "github.com/yandex/pandora/lib/mp",
 		module:    "C13Src",
 		namespace: "Pandora.Gen.C13Src",
-		imports:   []string{"Pandora.Model.C13Base"},
+		imports:   []string{"Pandora.Model.C13Base", "Pandora.Model.C13Grpc"},
 		extra:     c13srcExtra,
 	}
 }
@@ -69,7 +69,9 @@ func c13srcLoad(t *tr, path string) *packages.Package {
 			"github.com/yandex/pandora/components/providers/scenario/templater",
 			"github.com/yandex/pandora/components/providers/http/decoders",
 			"github.com/yandex/pandora/lib/ioutil2",
-			"github.com/yandex/pandora/core/provider")
+			"github.com/yandex/pandora/core/provider",
+			"github.com/yandex/pandora/components/providers/grpc",
+			"github.com/yandex/pandora/components/providers/grpc/grpcjson")
 		if err != nil {
 			t.errs = append(t.errs, "c13src: load: "+err.Error())
 		}
@@ -746,5 +748,8 @@ func c13srcExtra(t *tr) string {
 			xx.fail(nil, "DecodeProvider.Run: no SetProgress(func() bool { progress := …; passStart = ammoNum; return progress })")
 		}
 	}
+	// ---------------------------------------------------------------- grpc/json: pooled ammo objects (area_c13src_grpc.go)
+	b.WriteString("\n")
+	b.WriteString(c13srcGrpc(t))
 	return b.String()
 }
